@@ -49,7 +49,7 @@ def schema():
                 continue
             if table is None:
                 continue
-            if line.strip().startswith(")"):
+            if re.match(r"^\)\s*(WITHOUT ROWID)?\s*;", line.strip()):
                 table = None
                 continue
             if line.strip().startswith("--"):
